@@ -198,19 +198,24 @@ func (mgr *manager) StartTurn() (key.TargetID, float64, []event.TurnStatus, erro
 // 5. Emit TurnResetEvent
 func (mgr *manager) ResetTurn() error {
 	if !mgr.activeTurn {
-		return fmt.Errorf(
-			"target at top of order must have 0 gauge to call reset (their turn is active) %+v", mgr.orderHandler.turnOrder[0])
+		return fmt.Errorf("cannot reset the turn when there is no active turn: %+v", mgr)
 	}
 
 	mgr.activeTurn = false
-	mgr.orderHandler.turnOrder[0].gauge = int64(float64(BaseGauge) * mgr.gaugeCost)
 
-	// It would be more efficient to loop through mgr.order ourselves to determine this single target's placement instead of resorting the whole array when no other elements are changing.
-	// Unless we are also checking for other SPD changes that happened during the turn, in which case sort.Stable() is better to use, but only after we move the element to the end
-	// so as to ensure that, in the case of a tie, it is properly at the tail end of the tied elements.
-	mgr.orderHandler.turnOrder = append(mgr.orderHandler.turnOrder, mgr.orderHandler.turnOrder[0])
-	mgr.orderHandler.turnOrder = mgr.orderHandler.turnOrder[1:]
-	sort.Stable(mgr.orderHandler)
+	// the target whose turn it is may no longer head the order (its own gauge was changed during
+	// the turn) or may have left the order altogether (it died during its turn): look it up
+	// rather than assuming index 0, so that no other target's gauge is reset
+	if idx, err := mgr.orderHandler.FindTargetIndex(mgr.activeTarget); err == nil {
+		t := mgr.orderHandler.turnOrder[idx]
+		t.gauge = int64(float64(BaseGauge) * mgr.gaugeCost)
+
+		// move the target to the end so that, in the case of a tie, it is properly at the tail end
+		// of the tied elements after the stable sort
+		mgr.orderHandler.turnOrder = append(mgr.orderHandler.turnOrder[:idx], mgr.orderHandler.turnOrder[idx+1:]...)
+		mgr.orderHandler.turnOrder = append(mgr.orderHandler.turnOrder, t)
+		sort.Stable(mgr.orderHandler)
+	}
 
 	mgr.event.TurnReset.Emit(event.TurnReset{
 		ResetTarget: mgr.activeTarget,
